@@ -516,7 +516,7 @@ void AddSuffix(char* s, char const* Suff) {
 
     p = NULL;
     for (z = s; *z != '\0'; z++) {
-        if (*z == '\\') {
+        if (*z == PATHSEP) {
             p = z;
         }
     }
@@ -534,7 +534,7 @@ void KillSuffix(char* s) {
 
     p = NULL;
     for (z = s; *z != '\0'; z++) {
-        if (*z == '\\') {
+        if (*z == PATHSEP) {
             p = z;
         }
     }
